@@ -46,7 +46,8 @@ def required_cells(tier):
             "control:extended-after-use": 4,
             "chain:interleaved-additions": 3, "kind:weak": 3,
             "chain:weak-control": 3, "chain:stepped-manual": 3,
-            "chain:stepped-mixed": 3, "route:gradient": 5,
+            "chain:stepped-mixed": 3, "chain:stepped-twoleg": 3,
+            "chain:stepped-rerun": 3, "route:gradient": 5,
             "route:meanfield": 3, "post-flag:numpy.bool_": 5,
             "mix:identity-other-spec-same-step": 5,
             "control-outside-window": 5,
@@ -443,8 +444,43 @@ def run_chain(case):
     tebd = oqupy.PtTebd(oqupy.AugmentedMPS(rhos), sys_chain, pts, params,
                         chain_control=cc, dynamics_sites=record,
                         start_time=0.3)
-    stepping = ["compute", "manual", "compute", "mixed"][(i // 2) % 4]
-    if stepping == "manual":
+    stepping = ["compute", "manual", "twoleg", "mixed", "rerun",
+                "compute"][(i // 2) % 6]
+    if stepping in ("twoleg", "rerun") and nsteps < 2:
+        stepping = "compute"
+    leg_violation = None
+    if stepping == "twoleg":
+        # the run is handed over half way: the chain state is taken out and
+        # a second computation (same chain-control object) continues from it
+        k0 = 1 + (i // 12) % (nsteps - 1)
+        r1 = tebd.compute(k0, progress_type="silent")
+        second = oqupy.PtTebd(tebd.get_augmented_mps(), sys_chain, pts,
+                              params, chain_control=cc,
+                              dynamics_sites=record,
+                              start_time=float(r1["time"][-1]),
+                              start_step=k0)
+        r2 = second.compute(nsteps, progress_type="silent")
+
+        class _Joined:
+            def __init__(self, a, b):
+                self.states = list(a.states) + list(b.states)[1:]
+        res = {"dynamics": {s: _Joined(r1["dynamics"][s], r2["dynamics"][s])
+                            for s in record}}
+        for s in record:
+            a_, b_ = r1["dynamics"][s], r2["dynamics"][s]
+            if len(b_.states) != nsteps - k0 + 1 or \
+                    abs(b_.times[0] - a_.times[-1]) > 1e-12:
+                leg_violation = (f"second leg from step {k0} records "
+                                 f"{len(b_.states)} states starting at "
+                                 f"t={b_.times[0]!r}")
+    elif stepping == "rerun":
+        # the same chain-control object serves a second, identical run
+        tebd.compute(nsteps, progress_type="silent")
+        res = oqupy.PtTebd(oqupy.AugmentedMPS(rhos), sys_chain, pts, params,
+                           chain_control=cc, dynamics_sites=record,
+                           start_time=0.3).compute(nsteps,
+                                                   progress_type="silent")
+    elif stepping == "manual":
         # the chain is advanced through its public single-step interface
         tebd.initialize()
         for _ in range(nsteps):
@@ -460,6 +496,9 @@ def run_chain(case):
                                       record, pre, post)
     noc, _ = chain.chain_dynamics(dims, envs, rhos, nsteps, liou, dt, record)
     violations = []
+    if leg_violation:
+        violations.append({"what": leg_violation, "mechanism": "length",
+                           "detail": {}})
     err = 0.0
     effect = 0.0
     for s in record:
